@@ -253,6 +253,14 @@ def _run_git_command(I, ci, this, args):
     items = peel(args)
     items = items.items() if hasattr(items, 'items') and callable(items.items) else items.items
     argv = [concrete_str(peel(a)) for a in items]
+    fa = getattr(wd, 'fail_at', None)
+    if fa is not None:
+        # C13 fault injection: the git call with this index (in issue order) fails; index and command are solver-chosen
+        n = len(wd.log)
+        if wd.w.branch(fa == n):
+            wd.log.append(argv)
+            wd.failed = (n, argv)
+            return err(Adt('ZervError', I.prog.variant_index('ZervError', 'CommandFailed'), [mkstring('git failed (injected)')]))
     out = wd.git(I, argv)
     if out is None:
         return err(Adt('ZervError', I.prog.variant_index('ZervError', 'CommandFailed'), [mkstring('git failed')]))
